@@ -29,7 +29,7 @@ var feValues = map[string]string{
 func frontEndScenario() hx.Scenario {
 	name := "front-end/os-environ-forwarded-through-InitHandler"
 	return hx.Scenario{Name: name, Run: func(c *hx.Ctx) *hx.ScenarioResult {
-		cfg := &stack.Config{TimeoutSec: 3, Env: feValues}
+		cfg := &stack.Config{TimeoutSec: 3, Env: feValues, Handler: "app.overrideHandler"} // the handler given on the command line
 		type obs struct{ rt, ext map[string]string }
 		var o *obs
 		cfg.Runtime = func(rt *stack.Actor) {
@@ -93,6 +93,13 @@ func frontEndScenario() hx.Scenario {
 				if got := ob.ext[k]; got != want {
 					failf("e1-extension-view", "agent-env:wrong-value:reserved-platform:"+k, "extension environment: %s=%q, the emulator was initialised with %q", k, got, want)
 				}
+			}
+			// the handler override of the emulator's command line is the reserved _HANDLER of the runtime (extensions never see it)
+			if got := ob.rt["_HANDLER"]; got != "app.overrideHandler" {
+				failf("r1-runtime-overlay", "runtime-env:wrong-value:reserved-runtime:_HANDLER", "runtime environment: _HANDLER=%q, the emulator was started with the handler %q", got, "app.overrideHandler")
+			}
+			if got, ok := ob.ext["_HANDLER"]; ok {
+				failf("e1-extension-view", "agent-env:underscore-name:_HANDLER", "extension environment contains _HANDLER=%q", got)
 			}
 			if ob.rt["AWS_LAMBDA_RUNTIME_API"] == "" || ob.rt["AWS_LAMBDA_RUNTIME_API"] != ob.ext["AWS_LAMBDA_RUNTIME_API"] {
 				failf("a1-same-api-address", "api-address-differs", "runtime sees Runtime API address %q, the extension %q", ob.rt["AWS_LAMBDA_RUNTIME_API"], ob.ext["AWS_LAMBDA_RUNTIME_API"])
